@@ -1,6 +1,8 @@
 """C12 — constraints on the atoms are respected (DESIGN §6 C12)."""
 from __future__ import annotations
 
+import warnings
+
 import math
 import random as _random
 
@@ -602,6 +604,11 @@ class HamHistory(common.Suite):
             mv = HamiltonianDisplacementMove()
             ref = Verlet(dt=case["dt_fs"], max_steps=case["steps"])
             mv.operation.dt, mv.operation.max_steps = ref.dt, ref.max_steps
+        elif case["seed"] % 3 == 1:
+            # the integrator reaches the move AFTER the move was built (`move.operation = Verlet(...)`): an integrator built
+            # with its defaults applies the constraints whichever way it comes to the move
+            mv = HamiltonianDisplacementMove()
+            mv.operation = Verlet(dt=case["dt_fs"], max_steps=case["steps"])
         else:
             mv = HamiltonianDisplacementMove(operation=Verlet(dt=case["dt_fs"], max_steps=case["steps"]))
         mv.max_attempts = case["max_attempts"]
@@ -703,6 +710,9 @@ class FBHistory(common.Suite):
             # update_masses(), or atoms whose masses are changed after the driver was built
             s["mass_mode"] = ["default", "table", "changed", "table"][i % 4] if i >= 2 else "default"
             s["table"] = [[round(rng.uniform(0.5, 40.0), 3) for _ in range(3)] for _ in range(n)]
+            # the constraints are put on the atoms AFTER the driver has taken its first free steps (relax freely, then freeze a
+            # layer and go on): what counts is what the atoms carry when a step is taken
+            s["late_cons"] = i % 3 == 1
             yield s
 
     def real(self, case):
@@ -711,8 +721,14 @@ class FBHistory(common.Suite):
 
         atoms = H.make_atoms(case)
         attach_calc(atoms, case["ff"])
-        set_constraint(atoms, case["cons"])
-        fb = ForceBias(atoms, delta=case["delta"], temperature=case["T"], seed=case["seed"])
+        if not case.get("late_cons"):
+            set_constraint(atoms, case["cons"])
+        with warnings.catch_warnings():
+            warnings.simplefilter("ignore")
+            fb = ForceBias(atoms, delta=case["delta"], temperature=case["T"], seed=case["seed"])
+            if case.get("late_cons"):
+                fb.run(3)
+                set_constraint(atoms, case["cons"])
         mode = case.get("mass_mode", "default")
         if mode == "table":
             fb.update_masses(np.array(case["table"], float))
